@@ -2,13 +2,13 @@
    the SQL-level model and tied to the code operation by operation) describe the same storage operations: seen on one
    device, each registry operation the pipeline uses IS the corresponding operation of the per-device model. *)
 From Coq Require Import ZArith.
-From Lospan Require Import Base.Bytes Model.Store Model.RegistryTypes Spec.AbsRegistry Proof.RegistrySpecProof.
+From Lospan Require Import Base.Bytes Model.Codec Model.Store Model.RegistryTypes Spec.AbsRegistry Proof.RegistrySpecProof.
 From Coq Require Import ZifyNat ZifyN ZifyBool.
 Open Scope N_scope.
 
 (* ---------------- the downlink queue ---------------- *)
 Definition to_downm (m : dmsg) : downm :=
-  {| dn_eui := m_eui m; dn_data := m_data m; dn_port := m_port m; dn_ack := m_ack m; dn_created := Z.of_N (m_created m);
+  {| dn_eui := m_eui m; dn_data := hex_enc (m_data m) (* the column holds the payload as hexadecimal text *); dn_port := m_port m; dn_ack := m_ack m; dn_created := Z.of_N (m_created m);
      dn_sent := Z.of_N (m_sent m); dn_acktime := Z.of_N (m_acktime m); dn_fcnt := m_fcntup m |}.
 (* the registry's queue of device e is the per-device model's outbox *)
 Definition queue_is (s : astore) (e : N) (st : dstate) : Prop := outbox_of s e = map to_downm (ds_outbox st).
